@@ -452,7 +452,78 @@ func effectFacts(prog *ssa.Program, sp *ssa.Package) string {
 				sort.Strings(cl)
 				fmt.Fprintf(&sb, "/-- functions of the nutsdb packages called directly from DB.Merge's body -/\ndef mergeCalls : List String := [%s]\n", strings.Join(cl, ", "))
 			}
+			if ms.At(i).Obj().Name() == "reWriteData" {
+				// the rewrite transaction: which accesses to the database (fields of *DB, calls of nutsdb
+				// functions) are NOT dominated by the call of db.Begin, i.e. can happen without the write lock
+				fn := prog.MethodValue(ms.At(i))
+				fmt.Fprintf(&sb, "/-- reWriteData: accesses to the database that are not dominated by its `db.Begin(true)` (i.e. made without the write lock); `[\"no-Begin\"]` when it does not call Begin at all -/\ndef rewriteUnlocked : List String := [%s]\n", strings.Join(unlockedBeforeBegin(fn), ", "))
+			}
 		}
 	}
 	return sb.String()
+}
+
+// unlockedBeforeBegin lists the *DB field accesses and nutsdb calls of fn that the call of (*DB).Begin does
+// not dominate.
+func unlockedBeforeBegin(fn *ssa.Function) []string {
+	var begin ssa.Instruction
+	for _, b := range fn.Blocks {
+		for _, in := range b.Instrs {
+			if c, ok := in.(ssa.CallInstruction); ok {
+				if cf := c.Common().StaticCallee(); cf != nil && cf.Name() == "Begin" && cf.Signature.Recv() != nil && typeName(cf.Signature.Recv().Type()) == "DB" {
+					if begin == nil {
+						begin = in
+					}
+				}
+			}
+		}
+	}
+	if begin == nil {
+		return []string{leanStr("no-Begin")}
+	}
+	dominated := func(in ssa.Instruction) bool {
+		if in.Block() == begin.Block() {
+			for _, x := range in.Block().Instrs {
+				if x == begin {
+					return true
+				}
+				if x == in {
+					return false
+				}
+			}
+		}
+		return begin.Block().Dominates(in.Block())
+	}
+	seen := map[string]bool{}
+	var out []string
+	add := func(n string) {
+		if !seen[n] {
+			seen[n] = true
+			out = append(out, leanStr(n))
+		}
+	}
+	for _, b := range fn.Blocks {
+		for _, in := range b.Instrs {
+			if in == begin || dominated(in) {
+				continue
+			}
+			switch x := in.(type) {
+			case *ssa.FieldAddr:
+				if typeName(x.X.Type()) == "DB" {
+					st := x.X.Type().Underlying().(*types.Pointer).Elem().Underlying().(*types.Struct)
+					add("DB." + st.Field(x.Field).Name())
+				}
+			case ssa.CallInstruction:
+				if cf := x.Common().StaticCallee(); cf != nil && cf.Pkg != nil && strings.Contains(cf.Pkg.Pkg.Path(), "nutsdb") && !strings.HasPrefix(cf.Name(), "verif") {
+					n := cf.Name()
+					if cf.Signature.Recv() != nil {
+						n = typeName(cf.Signature.Recv().Type()) + "." + n
+					}
+					add(n)
+				}
+			}
+		}
+	}
+	sort.Strings(out)
+	return out
 }
